@@ -353,7 +353,12 @@ def native_part(chk, S, thorough):
             chk.inconc("native case not run")
             continue
         if "died" in res:
-            chk.violation(outcome_signature(res), f"native {name} threads={threads}: process died {json.dumps(res['died'])[:300]}", {"cases": [c]})
+            sig = outcome_signature(res)
+            if sig.get("class") == "alloc-abort":
+                # the driver's own address-space cap (thread stacks and malloc arenas of many worker threads), not an engine decision
+                chk.inconc("native run: allocation failed under the harness's address-space cap")
+                continue
+            chk.violation(sig, f"native {name} threads={threads}: process died {json.dumps(res['died'])[:300]}", {"cases": [c]})
             continue
         steps = res["steps"]
         ref_rows = None
